@@ -1,238 +1,18 @@
 import OrsoVerif.Generated.Iso
+import OrsoVerif.Model.IsoPrim
+import OrsoVerif.Generated.IsoText
 /-!
 # C08 — `orso.tools.parse_iso` and the DATE / TIME / TIMESTAMP casts built on it
 
-The model follows `orso/tools.py:681-779` line by line.  Text is `List Char`; every slice and
-index uses the offsets extracted from the source (`Gen.Iso`).  Exceptions are *data*: each
-primitive (`int()`, `datetime(...)`, `fromtimestamp`, `bytes.decode`, `str[i]`) yields the class
-CPython raises, and the extracted `except (...)` tuple decides which of them become `None`.
-
-Platform parameters (validated by correspondence, see `design_notes/C08.md`):
-`time_t` is 64 bit (`OverflowError` outside), `struct tm.tm_year` is a C `int`
-(`OSError` when `year - 1900` does not fit), `sys.get_int_max_str_digits() = 4300`.
-The model of `str.isdigit`, `int(str)` is exact on ASCII text and on non-ASCII characters that
-are neither digits nor white space; other characters are outside the compared domain.
+Primitives (exceptions as data, calendar, `int()`, `datetime(...)`, `fromtimestamp`, Python text
+operations) are in `Model/IsoPrim.lean`.  The string branch that `parseIso` *runs* is
+`Gen.IsoText.textBranch`, a program regenerated statement by statement from the AST of
+`orso/tools.py` on every run (`harness/pystmt.py`).  The hand-written skeleton below (`textPath`,
+`shaped`, assembled from the expression-level guards `Gen.Iso.*`) is the form the lemmas reason
+about; `C08.text_branch_refines_skeleton` proves, on every run, that the generated program equals
+it on every text.
 -/
 namespace Iso
-
-/-! ## Exceptions as data -/
-
-inductive Exc where
-  | valueError | unicodeDecodeError | typeError | overflowError | osError | indexError
-  deriving DecidableEq, Repr
-
-/-- The class and its bases, most derived first (names as they can appear in an `except`). -/
-def Exc.mro : Exc → List String
-  | .valueError => ["ValueError", "Exception", "BaseException"]
-  | .unicodeDecodeError => ["UnicodeDecodeError", "UnicodeError", "ValueError", "Exception", "BaseException"]
-  | .typeError => ["TypeError", "Exception", "BaseException"]
-  | .overflowError => ["OverflowError", "ArithmeticError", "Exception", "BaseException"]
-  | .osError => ["OSError", "EnvironmentError", "IOError", "Exception", "BaseException"]
-  | .indexError => ["IndexError", "LookupError", "Exception", "BaseException"]
-
-def Exc.name (e : Exc) : String := e.mro.headD "?"
-
-/-- `except (c₁, …, cₙ)` catches `e` iff one of its bases is named. -/
-def caughtBy (caught : List String) (e : Exc) : Bool := e.mro.any (fun c => caught.contains c)
-
-structure DateTime where
-  year : Nat
-  month : Nat
-  day : Nat
-  hour : Nat
-  minute : Nat
-  second : Nat
-  micro : Nat
-  deriving DecidableEq, Repr
-
-inductive Outcome where
-  | value (dt : DateTime)
-  | none
-  | raises (e : Exc)
-  deriving DecidableEq, Repr
-
-/-! ## Calendar -/
-
-def isLeap (y : Nat) : Bool := y % 4 == 0 && (y % 100 != 0 || y % 400 == 0)
-
-def daysInMonthL (leap : Bool) : Nat → Nat
-  | 1 => 31 | 2 => if leap then 29 else 28 | 3 => 31 | 4 => 30 | 5 => 31 | 6 => 30
-  | 7 => 31 | 8 => 31 | 9 => 30 | 10 => 31 | 11 => 30 | 12 => 31 | _ => 0
-
-def daysInMonth (y m : Nat) : Nat := daysInMonthL (isLeap y) m
-
-def validDate (y m d : Nat) : Bool :=
-  1 ≤ y && y ≤ 9999 && 1 ≤ m && m ≤ 12 && 1 ≤ d && d ≤ daysInMonth y m
-
-def validDateTime (dt : DateTime) : Bool :=
-  validDate dt.year dt.month dt.day && dt.hour ≤ 23 && dt.minute ≤ 59 && dt.second ≤ 59
-    && dt.micro ≤ 999999
-
-/-- Days in the months before month `m` (CPython `_days_before_month`). -/
-def daysBeforeMonthL (leap : Bool) : Nat → Nat
-  | 0 => 0
-  | 1 => 0
-  | m + 1 => daysBeforeMonthL leap m + daysInMonthL leap m
-
-/-- Days before January 1st of year `y ≥ 1` (CPython `_days_before_year`). -/
-def daysBeforeYear (y : Nat) : Nat :=
-  let p := y - 1
-  365 * p + p / 4 - p / 100 + p / 400
-
-/-- Proleptic Gregorian ordinal, 0001-01-01 = 1 (`datetime.date.toordinal`). -/
-def toOrdinal (y m d : Nat) : Nat := daysBeforeYear y + daysBeforeMonthL (isLeap y) m + d
-
-/-- Ordinal of 1970-01-01. -/
-def epochOrdinal : Nat := 719163
-
-/-- Unix seconds of a (naive, read as UTC) date-time. -/
-def toEpoch (dt : DateTime) : Int :=
-  ((toOrdinal dt.year dt.month dt.day : Int) - epochOrdinal) * 86400
-    + dt.hour * 3600 + dt.minute * 60 + dt.second
-
-/-- Year and 0-based day of the year of an ordinal (CPython `_ord2ymd`, extended to all
-integers by floor division on the 400-year cycle; the year is the astronomical year). -/
-def yearDoy (ord : Int) : Int × Nat :=
-  let n := ord - 1
-  let n400 := n / 146097
-  let r := (n % 146097).toNat
-  let n100 := r / 36524
-  let r1 := r % 36524
-  let n4 := r1 / 1461
-  let r2 := r1 % 1461
-  let n1 := r2 / 365
-  let r3 := r2 % 365
-  let y : Int := n400 * 400 + (n100 * 100 + n4 * 4 + n1 : Nat) + 1
-  if n1 = 4 ∨ n100 = 4 then (y - 1, 365) else (y, r3)
-
-def monthDayGo (leap : Bool) : Nat → Nat → Nat → Nat × Nat
-  | 0, m, doy => (m, doy + 1)
-  | fuel + 1, m, doy =>
-    let dim := daysInMonthL leap m
-    if doy < dim then (m, doy + 1) else monthDayGo leap fuel (m + 1) (doy - dim)
-
-/-- Month and day of a 0-based day of the year. -/
-def monthDay (leap : Bool) (doy : Nat) : Nat × Nat := monthDayGo leap 11 1 doy
-
-/-- `datetime.datetime.fromtimestamp(n, tz=utc).replace(tzinfo=None)` for a Python `int` `n`. -/
-def fromTimestamp (n : Int) : Except Exc DateTime :=
-  if n < -9223372036854775808 ∨ n > 9223372036854775807 then .error .overflowError
-  else
-    let days := n / 86400
-    let secs := (n % 86400).toNat
-    let yd := yearDoy (days + epochOrdinal)
-    if yd.1 - 1900 < -2147483648 ∨ yd.1 - 1900 > 2147483647 then .error .osError
-    else if yd.1 < 1 ∨ yd.1 > 9999 then .error .valueError
-    else
-      let md := monthDay (isLeap yd.1.toNat) yd.2
-      .ok ⟨yd.1.toNat, md.1, md.2, secs / 3600, secs % 3600 / 60, secs % 60, 0⟩
-
-def cIntOk (x : Int) : Bool := -2147483648 ≤ x && x ≤ 2147483647
-
-def buildDatetime (y m d H M S : Int) : Except Exc DateTime :=
-  if !(cIntOk y && cIntOk m && cIntOk d && cIntOk H && cIntOk M && cIntOk S) then .error .overflowError
-  else if y < 1 ∨ y > 9999 then .error .valueError
-  else if m < 1 ∨ m > 12 then .error .valueError
-  else if d < 1 ∨ d > (daysInMonth y.toNat m.toNat : Nat) then .error .valueError
-  else if H < 0 ∨ H > 23 then .error .valueError
-  else if M < 0 ∨ M > 59 then .error .valueError
-  else if S < 0 ∨ S > 59 then .error .valueError
-  else .ok ⟨y.toNat, m.toNat, d.toNat, H.toNat, M.toNat, S.toNat, 0⟩
-
-/-- `datetime.datetime(*args)` for 3, 5 or 6 integer arguments. -/
-def mkDatetime : List Int → Except Exc DateTime
-  | [y, m, d] => buildDatetime y m d 0 0 0
-  | [y, m, d, H, M] => buildDatetime y m d H M 0
-  | [y, m, d, H, M, S] => buildDatetime y m d H M S
-  | _ => .error .typeError
-
-/-! ## `int(str)` -/
-
-/-- ASCII white space as skipped by `int()`. -/
-def isWs (c : Char) : Bool :=
-  c == ' ' || c == '\t' || c == '\n' || c == '\r' || c == Char.ofNat 11 || c == Char.ofNat 12
-
-def rstrip : List Char → List Char
-  | [] => []
-  | c :: r =>
-    match rstrip r with
-    | [] => if isWs c then [] else [c]
-    | r' => c :: r'
-
-def strip (s : List Char) : List Char := rstrip (s.dropWhile isWs)
-
-def digitVal (c : Char) : Nat := c.toNat - 48
-
-/-- Decimal digits with single underscores between digits. `prev` = the previous character was a digit. -/
-def digitsGo (acc : Nat) (prev : Bool) : List Char → Option Nat
-  | [] => if prev then some acc else none
-  | c :: r =>
-    if c.isDigit then digitsGo (10 * acc + digitVal c) true r
-    else if c == '_' && prev then digitsGo acc false r
-    else none
-
-def maxStrDigits : Nat := 4300
-
-def pyNat (s : List Char) : Except Exc Nat :=
-  if (s.filter Char.isDigit).length > maxStrDigits then .error .valueError
-  else match digitsGo 0 false s with
-    | some n => .ok n
-    | none => .error .valueError
-
-/-- `int(s)` for a `str` `s` (base 10). -/
-def pyInt (s : List Char) : Except Exc Int :=
-  match strip s with
-  | [] => .error .valueError
-  | c :: r =>
-    if c = '-' then (pyNat r).bind fun n => .ok (-(n : Int))
-    else if c = '+' then (pyNat r).bind fun n => .ok (n : Int)
-    else (pyNat (c :: r)).bind fun n => .ok (n : Int)
-
-/-- `str.isdigit()` (ASCII model). -/
-def isDigitStr (s : List Char) : Bool := !s.isEmpty && s.all Char.isDigit
-
-/-! ## `int(float)` -/
-
-inductive FloatInt where
-  | nan | inf | fin (z : Int)
-  deriving DecidableEq, Repr
-
-/-- Truncation toward zero of the IEEE-754 double with the given bit pattern. -/
-def floatTrunc (bits : UInt64) : FloatInt :=
-  let b := bits.toNat
-  let neg := b / 2 ^ 63 == 1
-  let e := (b / 2 ^ 52) % 2048
-  let m := b % 2 ^ 52
-  if e == 2047 then (if m == 0 then .inf else .nan)
-  else
-    let mant := if e == 0 then m else m + 2 ^ 52
-    let ex := if e == 0 then 1 else e
-    let mag : Nat := if ex ≥ 1075 then mant * 2 ^ (ex - 1075) else mant / 2 ^ (1075 - ex)
-    .fin (if neg then -(mag : Int) else (mag : Int))
-
-def intOfFloat (bits : UInt64) : Except Exc Int :=
-  match floatTrunc bits with
-  | .nan => .error .valueError
-  | .inf => .error .overflowError
-  | .fin z => .ok z
-
-/-! ## The text path (`orso/tools.py:734-776`) -/
-
-def slice (v : List Char) (ab : Nat × Nat) : List Char := (v.drop ab.1).take (ab.2 - ab.1)
-
-def idx (v : List Char) (i : Nat) : Except Exc Char :=
-  match v[i]? with
-  | some c => .ok c
-  | none => .error .indexError
-
-/-- `map(int, [value[a:b], …])`, left to right. -/
-def ints (v : List Char) : List (Nat × Nat) → Except Exc (List Int)
-  | [] => .ok []
-  | ab :: r => (pyInt (slice v ab)).bind fun x => (ints v r).bind fun xs => .ok (x :: xs)
-
-/-- `datetime.datetime(*map(int, [value[a:b], …]))` -/
-def fields (v : List Char) (sl : List (Nat × Nat)) : Except Exc (Option DateTime) :=
-  (ints v sl).bind fun xs => (mkDatetime xs).bind fun dt => .ok (some dt)
 
 /-- Python's short-circuit `a and b` / `a or b` where only `b` can raise. -/
 def shortCircuit (joinAnd : Bool) (a : Bool) (b : Except Exc Bool) : Except Exc Bool :=
@@ -305,8 +85,15 @@ def epoch (tyName : String) (n : Except Exc Int) : Except Exc (Option DateTime) 
     n.bind fun k => (fromTimestamp k).bind fun dt => .ok (some dt)
   else .ok none
 
-/-- `str` input (also reached by decoded bytes): the `isdigit` branch, then the text path. -/
+/-- `str` input (also reached by decoded bytes): the `isdigit` branch, then the string branch —
+the program generated from the source on this run. -/
 def strBody (s : List Char) : Except Exc (Option DateTime) :=
+  if isDigitStr s then epoch "int" (pyInt s) else Gen.IsoText.textBranch s
+
+/-- The same with the hand-written skeleton in place of the generated program (what the lemmas
+reason about; equal to `strBody` by `C08.text_branch_refines_skeleton`; also run by the driver so
+that a text on which the code has moved away from the skeleton is reported concretely). -/
+def strBodySkel (s : List Char) : Except Exc (Option DateTime) :=
   if isDigitStr s then epoch "int" (pyInt s) else textPath s
 
 /-- The body of the `try`. -/
@@ -335,6 +122,13 @@ def parseIsoWith (caught : List String) (i : Input) : Outcome :=
 /-- `parse_iso(value)` with the `except` tuple of the current source. -/
 def parseIso (i : Input) : Outcome := parseIsoWith Gen.Iso.caught i
 
+/-- `parse_iso` of a text with the skeleton string branch. -/
+def parseTextSkel (s : List Char) : Outcome :=
+  match strBodySkel s with
+  | .ok (some dt) => .value dt
+  | .ok none => .none
+  | .error e => if caughtBy Gen.Iso.caught e then .none else .raises e
+
 /-! ## The casts (`orso/types.py:303-314,347-351`) -/
 
 inductive CastKind where
@@ -349,7 +143,11 @@ inductive CastOut where
   deriving DecidableEq, Repr
 
 /-- `parse_time` returns a value that already is a `datetime.time` unchanged (types.py, the
-`isinstance(x, datetime.time)` test) before it consults the parser. -/
+`isinstance(x, datetime.time)` test) before it consults the parser.  For text and bytes that the
+parser does not read, `parse_time` first tries `datetime.time.fromisoformat` (a time of day on its
+own); that is outside this model — the TIME cast is not part of C08's statement — so
+`cast .time (.str _)` / `cast .time (.bytes _)` is faithful only when `parseIso` yields a value
+(`C08.casts_agree` claims no more, and the harness compares no more). -/
 def cast (k : CastKind) (i : Input) : CastOut :=
   match k, i with
   | .time, .time H M S us => .time H M S us
@@ -362,50 +160,5 @@ def cast (k : CastKind) (i : Input) : CastOut :=
       | .date => .date dt.year dt.month dt.day
       | .time => .time dt.hour dt.minute dt.second dt.micro
       | .timestamp => .timestamp dt
-
-/-! ## Canonical renderings -/
-
-def digit (n : Nat) : Char := Char.ofNat (48 + n % 10)
-
-def pad2 (n : Nat) : List Char := [digit (n / 10), digit n]
-def pad4 (n : Nat) : List Char := [digit (n / 1000), digit (n / 100), digit (n / 10), digit n]
-def pad6 (n : Nat) : List Char :=
-  [digit (n / 100000), digit (n / 10000), digit (n / 1000), digit (n / 100), digit (n / 10), digit n]
-
-def renderDate (y m d : Nat) : List Char := pad4 y ++ '-' :: pad2 m ++ '-' :: pad2 d
-
-def renderMinute (dt : DateTime) (sep : Char) : List Char :=
-  renderDate dt.year dt.month dt.day ++ sep :: pad2 dt.hour ++ ':' :: pad2 dt.minute
-
-def renderSecond (dt : DateTime) (sep : Char) : List Char :=
-  renderMinute dt sep ++ ':' :: pad2 dt.second
-
-inductive Suffix where
-  | none
-  | z
-  | plus (hh mm : Nat)
-  | minus (hh mm : Nat)
-  deriving Repr
-
-def Suffix.text : Suffix → List Char
-  | .none => []
-  | .z => ['Z']
-  | .plus h m => '+' :: pad2 h ++ ':' :: pad2 m
-  | .minus h m => '-' :: pad2 h ++ ':' :: pad2 m
-
-/-- The suffixes after which the minute and date-only forms are still read (the code drops a
-trailing `Z` and everything from the first `+`; a `-HH:MM` suffix is *not* understood there). -/
-def Suffix.dropped : Suffix → Bool
-  | .none | .z | .plus _ _ => true
-  | .minus _ _ => false
-
-/-- The fraction: the first `k` digits of the six-digit microsecond field (`k = 0`: no fraction). -/
-def fraction (micro k : Nat) : List Char := if k = 0 then [] else '.' :: (pad6 micro).take k
-
-/-- `YYYY-MM-DD<sep>HH:MM:SS[.f{k}][Z|±HH:MM]` -/
-def render (dt : DateTime) (sep : Char) (k : Nat) (suf : Suffix) : List Char :=
-  renderSecond dt sep ++ fraction dt.micro k ++ suf.text
-
-def truncSeconds (dt : DateTime) : DateTime := { dt with micro := 0 }
 
 end Iso
